@@ -676,6 +676,9 @@ fn clear_dir(dir: &Path) {
 thread_local! {
     /// seconds a daacfind process may run before it is killed (lower while minimising a hang)
     pub static PROCESS_TIMEOUT_S: std::cell::Cell<u64> = const { std::cell::Cell::new(20) };
+    /// re-run a timed-out scenario twice before believing the hang (off while minimising: the
+    /// minimised scenario is verified with confirmation afterwards)
+    pub static CONFIRM_HANGS: std::cell::Cell<bool> = const { std::cell::Cell::new(true) };
 }
 
 pub fn execute(sc: &Scenario, bins: &Bins, dir: &Path) -> RunResult {
@@ -775,7 +778,7 @@ fn parse_log(log: &str) -> (Vec<LogCall>, Vec<(i32, String)>) {
 
 pub fn run(sc: &Scenario, bins: &Bins, dir: &Path, known_crlf: bool) -> Outcome {
     let mut r = execute(sc, bins, dir);
-    if r.timed_out {
+    if r.timed_out && CONFIRM_HANGS.with(|c| c.get()) {
         // a hang is only believed if the same scenario hangs twice more; a process that was
         // merely starved once is re-judged on its completed run
         for _ in 0..2 {
@@ -926,7 +929,7 @@ pub fn run(sc: &Scenario, bins: &Bins, dir: &Path, known_crlf: bool) -> Outcome 
     let mut known = None;
     let stderr = String::from_utf8_lossy(&r.stderr);
     let violation = if r.timed_out {
-        Some(Violation { class: "no-return".into(), detail: format!("daacfind did not exit within {} s (three times in a row)", PROCESS_TIMEOUT_S.with(|t| t.get())) })
+        Some(Violation { class: "no-return".into(), detail: format!("daacfind did not exit within {} s (repeatedly)", PROCESS_TIMEOUT_S.with(|t| t.get())) })
     } else if r.status == Some(101) || stderr.contains("panicked at") {
         let first = stderr.lines().find(|l| !l.trim().is_empty()).unwrap_or("").to_string();
         let msg = stderr.lines().skip_while(|l| !l.contains("panicked at")).nth(1).unwrap_or("").to_string();
@@ -1211,6 +1214,7 @@ pub fn minimise(sc: &Scenario, class: &str, bins: &Bins, dir: &Path, known_crlf:
     let deadline = Instant::now() + Duration::from_secs(120);
     if class == "no-return" {
         PROCESS_TIMEOUT_S.with(|t| t.set(4));
+        CONFIRM_HANGS.with(|c| c.set(false));
     }
     let fails = |c: &Scenario| -> bool {
         if c.patterns.is_empty() || Instant::now() > deadline {
@@ -1408,5 +1412,6 @@ pub fn minimise(sc: &Scenario, class: &str, bins: &Bins, dir: &Path, known_crlf:
         }
     }
     PROCESS_TIMEOUT_S.with(|t| t.set(20));
+    CONFIRM_HANGS.with(|c| c.set(true));
     cur
 }
